@@ -276,6 +276,16 @@ fn precondition(model: &Model, op: &Op) -> String {
 pub fn step(u: &Universe, st: &State, op: &Op) -> (Option<State>, Vec<Viol>) {
     let cx = u.cx();
     let mut v = Vec::new();
+    // operations are only ever generated on identifiers that were live when the history was
+    // recorded: an unknown identifier here means that replaying the same history handed out
+    // different identifiers (identifier assignment is not a function of the history)
+    if let Some(i) = op.node_refs().into_iter().find(|i| !st.model.nodes.contains_key(i)) {
+        v.push((
+            format!("{}/replay/identifier-assignment-differs-between-replays/{}", u.prop, op.kind()),
+            format!("{op:?} refers to node {i}, which this replay of the same history did not create"),
+        ));
+        return (None, v);
+    }
     let exp = st.model.expect(op, &cx);
     let mut real = st.real.clone();
     let mut pids = st.pids.clone();
@@ -941,7 +951,14 @@ pub fn bfs(
         let expanded: Vec<Exp> = frontier
             .par_iter()
             .map(|hist| {
-                let st = rebuild(u, hist).expect("frontier state rebuilds");
+                let st = match rebuild(u, hist) {
+                    Some(s) => s,
+                    // it replayed when it was checked: replaying is not a function of the history
+                    None => {
+                        let viol = vec![((format!("{}/clone-vs-replay/frontier", u.prop), "a history that replayed once does not replay a second time".to_string()), hist.clone())];
+                        return (Vec::new(), viol, 0, BTreeMap::new(), BTreeMap::new());
+                    }
+                };
                 let (ops, unspec) = enabled_ops(u, &st);
                 let mut succ = Vec::new();
                 let mut viol = Vec::new();
